@@ -1,7 +1,156 @@
-(* C26 placeholder while the correspondence is being validated. *)
-From Coq Require Import ZArith List Bool.
+(* C26 -- Temporary row ids resolve consistently within a bundle.
+   Statements only; proofs are in Proofs/TempIds_proofs.v; the model is Model/TempIds.v (hand-written, compared
+   with the real engine and with ActionSummary on every run by harness/props/c26.py).  Ids allocated by an add
+   are Model/RowIds.fill, which Props/C27.v proves equal to the loop translated from useractions.py.
+   "The bundle leaves no trace" after a rejection is the engine's rollback (C04): [run_bundle] returns PyErr and
+   the check observes on the implementation that every table is unchanged. *)
+From Coq Require Import ZArith List Bool Lia.
 Import ListNotations.
-Require Import Grist.Lib.PyPrelude Grist.Lib.PyMonad Grist.Model.RowIds Grist.Model.TempIds.
+Require Import Grist.Lib.PyPrelude Grist.Lib.PyMonad Grist.Model.RowIds Grist.Model.TempIds
+               Grist.Proofs.TempIds_proofs.
 Open Scope Z_scope.
-Example C26_smoke : translate (map_update [] [Some (-1); None; Some 3] [4; 5; 6]) [-1; 3; -2] = [4; 3; -2].
+
+(* ---- the mapping (ActionSummary.update_new_rows_map / translate_new_row_ids) ------------------------- *)
+
+(* After update_new_rows_map(t, temps, finals): a temporary id at position i translates to finals[i], provided
+   it does not occur again later in the same request (then the later occurrence wins, see below). *)
+Theorem C26_translate_after_update : forall tm temps finals i a f,
+  nth_error temps i = Some (Some a) -> a < 0 -> nth_error finals i = Some f ->
+  (forall j, (i < j)%nat -> nth_error temps j <> Some (Some a)) ->
+  translate (map_update tm temps finals) [a] = [f].
+Proof. exact translate_after_update. Qed.
+
+(* Every id that is not a temporary id of the request keeps its translation ... *)
+Theorem C26_translate_frame : forall tm temps finals r,
+  (r < 0 -> forall j, nth_error temps j <> Some (Some r)) ->
+  tr (map_update tm temps finals) r = tr tm r.
+Proof. exact translate_frame. Qed.
+
+(* ... non-negative ids are never translated, and translating twice changes nothing (maps built by the engine
+   hold negative keys and positive allocated ids: wf_tmap, an invariant by C26_bundle_maps_wellformed). *)
+Theorem C26_nonnegative_untouched : forall tm r, wf_tmap tm -> 0 <= r -> tr tm r = r.
+Proof. exact tr_nonneg. Qed.
+
+Theorem C26_translate_idempotent : forall tm ids, wf_tmap tm ->
+  translate tm (translate tm ids) = translate tm ids.
+Proof. exact translate_idempotent. Qed.
+
+(* The last mapping wins: a map built by any sequence of updates returns, for a, the final id of the LAST pair
+   recorded for a -- within one request and across requests. *)
+Theorem C26_last_mapping_wins : forall tm temps finals a f,
+  lookup a (map_update tm temps finals) =
+  match lookup a (rev (temp_pairs temps finals)) with Some v => Some v | None => lookup a tm end /\
+  (lookup a (rev (temp_pairs temps finals)) = Some f <-> last_pair (temp_pairs temps finals) a f).
+Proof.
+  intros. split; [rewrite map_update_pairs; apply lookup_app|apply lookup_rev_last].
+Qed.
+
+(* Bundle level, for every bundle prefix the interpreter accepts: the map of table t holds for a exactly the id
+   RETURNED for the last occurrence of a among the adds to t so far (read off actions and retValues) ... *)
+Theorem C26_bundle_last_mapping_wins : forall s d acts st rets t a f,
+  run s (mkstate d no_maps) acts = PyOk (st, rets) ->
+  (lookup a (st_maps st t) = Some f <-> last_pair (bundle_pairs acts rets t) a f).
+Proof. exact bundle_last_mapping_wins. Qed.
+
+(* ... and nothing for an id no add to t used. *)
+Theorem C26_bundle_unmapped : forall s d acts st rets t a,
+  run s (mkstate d no_maps) acts = PyOk (st, rets) ->
+  (lookup a (st_maps st t) = None <-> ~ In a (keys (bundle_pairs acts rets t))).
+Proof. exact bundle_unmapped. Qed.
+
+Theorem C26_bundle_maps_wellformed : forall s d acts st rets,
+  run s (mkstate d no_maps) acts = PyOk (st, rets) -> wf_maps (st_maps st).
+Proof. exact bundle_wf. Qed.
+
+(* ---- row-id arguments of later actions ---------------------------------------------------------------- *)
+
+(* Right after an accepted add, a temporary id of the request translates to the returned id at its position,
+   and that id is a row of the table. *)
+Theorem C26_add_then_translate : forall s st t ids rv lv st' out i a f,
+  In t (map fst (st_doc st)) ->
+  step s st (AAdd t ids rv lv) = PyOk (st', RetIds out) ->
+  nth_error ids i = Some (Some a) -> a < 0 -> nth_error out i = Some f ->
+  (forall j, (i < j)%nat -> nth_error ids j <> Some (Some a)) ->
+  translate (st_maps st' t) [a] = [f] /\ row_in f (table_ids (get_table (st_doc st') t)) = true.
+Proof. exact add_then_translate. Qed.
+
+(* An update / a removal that names temporary ids acts exactly as the update / removal of the rows they stand
+   for (in any state a bundle can reach). *)
+Theorem C26_update_acts_on_allocated_rows : forall s st t ids rv lv, wf_maps (st_maps st) ->
+  step s st (AUpdate t ids rv lv) = step s st (AUpdate t (translate (st_maps st t) ids) rv lv).
+Proof. exact step_update_resolved. Qed.
+
+Theorem C26_remove_acts_on_allocated_rows : forall s st t ids, wf_maps (st_maps st) ->
+  step s st (ARemove t ids) = step s st (ARemove t (translate (st_maps st t) ids)).
+Proof. exact step_remove_resolved. Qed.
+
+(* ---- reference values (Reference[List]Column.prepare_new_values) ------------------------------------- *)
+
+(* Accepted Ref values: each negative id became the id the TARGET table's map holds for it; everything else is
+   unchanged.  RefList: the same for every element of every list. *)
+Theorem C26_ref_values_translated : forall tm vals vs, wf_tmap tm ->
+  prepare_ref tm vals = PyOk vs -> Forall2 (ref_resolved tm) vals vs.
+Proof. exact prepare_ref_ok. Qed.
+
+Theorem C26_reflist_values_translated : forall tm vals vs, wf_tmap tm ->
+  prepare_reflist tm vals = PyOk vs -> Forall2 (list_resolved tm) vals vs.
+Proof. exact prepare_reflist_ok. Qed.
+
+(* A negative reference id that the target table's map does not hold is rejected ... *)
+Theorem C26_unresolved_negative_rejected : forall tm vals z,
+  In (RInt z) vals -> z < 0 -> lookup z tm = None -> prepare_ref tm vals = PyErr PyValueError.
+Proof. exact prepare_ref_rejects. Qed.
+
+Theorem C26_unresolved_negative_rejected_list : forall tm vals l z,
+  In (LList l) vals -> In z l -> z < 0 -> lookup z tm = None -> prepare_reflist tm vals = PyErr PyValueError.
+Proof. exact prepare_reflist_rejects. Qed.
+
+(* ... nothing else is, and no negative id is ever stored. *)
+Theorem C26_only_unresolved_rejected : forall tm vals e, wf_tmap tm ->
+  prepare_ref tm vals = PyErr e ->
+  e = PyValueError /\ exists z, In (RInt z) vals /\ z < 0 /\ lookup z tm = None.
+Proof. exact prepare_ref_rejects_only_unresolved. Qed.
+
+Theorem C26_only_unresolved_rejected_list : forall tm vals e, wf_tmap tm ->
+  prepare_reflist tm vals = PyErr e ->
+  e = PyValueError /\ exists l z, In (LList l) vals /\ In z l /\ z < 0 /\ lookup z tm = None.
+Proof. exact prepare_reflist_rejects_only_unresolved. Qed.
+
+Theorem C26_no_negative_stored : forall tm,
+  (forall vals vs z, prepare_ref tm vals = PyOk vs -> In (RInt z) vs -> 0 <= z) /\
+  (forall vals vs l z, prepare_reflist tm vals = PyOk vs -> In (LList l) vs -> In z l -> 0 <= z).
+Proof. intros tm. split; [apply prepare_ref_no_negative|apply prepare_reflist_no_negative]. Qed.
+
+(* ---- non-vacuity -------------------------------------------------------------------------------------- *)
+
+(* the bundle probed in the design phase: T1 gets rows -1,-2 -> 4,5; T0 row -1 refers to them (Ref -1, RefList
+   [-2,-1,2]); T0 row -1 is updated; T1 row -2 is removed again (and drops out of the RefList) *)
+Example C26_bundle_nonvacuous :
+  let s := [(0, (1, 1)); (1, (1, 0)); (2, (0, 0))] in
+  let d := [(0, [mkrow 1 (RInt 0) LNone; mkrow 2 (RInt 0) LNone]);
+            (1, [mkrow 1 (RInt 0) LNone; mkrow 2 (RInt 0) LNone; mkrow 3 (RInt 0) LNone]); (2, [])] in
+  run_bundle s d [AAdd 1 [Some (-1); Some (-2)] None None;
+                  AAdd 0 [Some (-1)] (Some [RInt (-1)]) (Some [LList [-2; -1; 2]]);
+                  AUpdate 0 [-1] None None;
+                  ARemove 1 [-2]]
+  = PyOk ([(0, [mkrow 1 (RInt 0) LNone; mkrow 2 (RInt 0) LNone; mkrow 3 (RInt 4) (LList [4; 2])]);
+           (1, [mkrow 1 (RInt 0) LNone; mkrow 2 (RInt 0) LNone; mkrow 3 (RInt 0) LNone; mkrow 4 (RInt 0) LNone]);
+           (2, [])],
+          [RetIds [4; 5]; RetIds [3]; RetNone; RetNone]).
 Proof. vm_compute. reflexivity. Qed.
+
+(* hypotheses of C26_translate_after_update / last mapping wins: -1 occurs twice, the later position wins *)
+Example C26_last_wins_nonvacuous :
+  translate (map_update [(-1, 9)] [Some (-1); None; Some (-1); Some 7] [4; 5; 6; 7]) [-1; -2; 7] = [6; -2; 7] /\
+  wf_tmap (map_update [(-1, 9)] [Some (-1); None; Some (-1); Some 7] [4; 5; 6; 7]).
+Proof. split; [vm_compute; reflexivity|]. vm_compute. repeat constructor; cbn; lia. Qed.
+
+(* an unresolved negative reference rejects the whole bundle; a temp id of ANOTHER table does not resolve *)
+Example C26_rejects_nonvacuous :
+  let s := [(0, (1, 1)); (1, (1, 0)); (2, (0, 0))] in
+  let d := [(0, [mkrow 1 (RInt 0) LNone]); (1, [mkrow 1 (RInt 0) LNone]); (2, [])] in
+  run_bundle s d [AAdd 0 [None] (Some [RInt (-5)]) None] = PyErr PyValueError /\
+  run_bundle s d [AAdd 0 [Some (-5)] None None; AAdd 0 [None] (Some [RInt (-5)]) None] = PyErr PyValueError /\
+  run_bundle s d [AAdd 0 [None] None (Some [LList [1; -5]])] = PyErr PyValueError /\
+  run_bundle s d [AUpdate 0 [-5] None None] = PyErr PyAssertionError.
+Proof. repeat split; vm_compute; reflexivity. Qed.
